@@ -111,12 +111,17 @@ TE == << TrTV(1, 12, 14, 0), TrTV(2, 65535, 0, 65535), TrTV(3, 256, 127, 128), T
 TFX == [i \in 1..32 |-> TrTV(1, i - 1, 14, IF i % 2 = 0 THEN 192 ELSE 128)]
 TGX == [i \in 1..64 |-> TrTV(((i - 1) \div 16) + 2, (i - 1) % 16, 14, 256)]
 THX == [i \in 1..32 |-> TrTV(1, i - 1, 15, i)]
+\* transform type x attribute type {14, 15} x variable-length value of 1..4 octets (full product; a Key Length that arrives -- or is
+\* held -- in the variable-length format stays in that format)
+TAX == [i \in 1..40 |-> TrTLV(((i - 1) \div 8) + 1, 12, 14 + (((i - 1) \div 4) % 2), D(((i - 1) % 4) + 1, 60 + i))]
+TAY == [i \in 1..10 |-> TrTLV(((i - 1) \div 2) + 1, IF i % 2 = 0 THEN 12 ELSE 3, 14, << i \div 2, 128 >>)]
 Prop(num, proto, sn, trs) == [num |-> num, proto |-> proto, spi |-> D(sn, 55 + sn + 3 * num), tr |-> trs]
 PropLists == { << >>, << Prop(1, 1, 0, TA) >>, << Prop(1, 3, 4, TB) >>, << Prop(0, 0, 255, TC) >>, << Prop(255, 255, 8, TD) >>,
                << Prop(2, 2, 1, TE) >>, << Prop(1, 1, 8, TA), Prop(2, 1, 8, TB), Prop(3, 3, 4, TD) >>,
                << Prop(1, 1, 0, TC), Prop(1, 1, 0, TC) >>,
                << Prop(1, 1, 0, TFX) >>, << Prop(2, 3, 4, TGX) >>, << Prop(3, 1, 8, THX), Prop(4, 3, 4, TFX) >>,
-               << Prop(9, 3, 4, [i \in 1..250 |-> TB[((i - 1) \div 25) + 1]]) >> }        \* 250 transforms, grouped by type
+               << Prop(9, 3, 4, [i \in 1..250 |-> TB[((i - 1) \div 25) + 1]]) >>,        \* 250 transforms, grouped by type
+               << Prop(1, 1, 0, TAX) >>, << Prop(1, 3, 4, TAY), Prop(2, 1, 0, TAY) >> }
 SAs   == { [k |-> "SA", props |-> pl] : pl \in PropLists }
 
 AV(t, n) == [t |-> t, v |-> D(n, 60 + t)]
